@@ -223,7 +223,28 @@ def norm(n, env=None):
         if k == "range":
             return ("prange", (p.get("lo") or {}).get("v"), (p.get("hi") or {}).get("v"))
         return (k,)
-    return go(n)
+    out = go(n)
+    # `let len = b - a; .. from_raw_parts(a.ptr(), len)`: the length through a single-assignment local
+    lets = {}
+
+    def collect(t):
+        if isinstance(t, tuple):
+            if len(t) == 3 and t[0] == "let" and isinstance(t[1], tuple) and t[1][:1] == ("bind",) and isinstance(t[2], tuple) and t[2][:1] == ("SUB",):
+                lets.setdefault(t[1][1], []).append(t[2])
+            for x in t:
+                collect(x)
+    collect(out)
+
+    def resolve(t):
+        if isinstance(t, tuple):
+            if len(t) == 3 and t[0] == "from_raw_parts" and isinstance(t[1], tuple) and t[1][:1] == ("VAL",) and isinstance(t[2], tuple) \
+                    and t[2][:1] == ("v",) and len(lets.get(t[2][1], [])) == 1:
+                sub = lets[t[2][1]][0]
+                if sub[2] == t[1][1]:
+                    return ("SLICE", t[1][1], sub[1])
+            return tuple(resolve(x) for x in t)
+        return t
+    return resolve(out) if lets else out
 
 
 def slice_idiom(t):
